@@ -11,6 +11,7 @@ import (
 
 var vNSNames []string
 var vNSData [][]byte
+var vNSSizes []int // optional: sizes reported by Stat when they differ from len(data) (large files without content)
 var vNSWrites int
 
 func vNSFind(name string) int {
@@ -26,7 +27,18 @@ func vStub_os_Stat(name string) (fs.FileInfo, error) {
 	name = filepath.Clean(name) // the kernel resolves "a//b" like "a/b"
 	for i, n := range vNSNames {
 		if n == name {
-			return &vInfo{name: "f", size: int64(len(vNSData[i]))}, nil
+			sz := len(vNSData[i])
+			if i < len(vNSSizes) {
+				sz = vNSSizes[i]
+			}
+			base := name
+			for j := len(name) - 1; j >= 0; j-- {
+				if name[j] == '/' {
+					base = name[j+1:]
+					break
+				}
+			}
+			return &vInfo{name: base, size: int64(sz)}, nil
 		}
 	}
 	return nil, fs.ErrNotExist
